@@ -81,4 +81,3 @@ package route
 //@   assert before go: sdSwapped && sdDeadline
 //@   assert before Deregister: sdSwapped && sdDeadline && sdHooks
 //@   assert before Shutdown: sdSwapped && sdDeadline && sdHooks
-
